@@ -91,11 +91,17 @@ fn check_width_laws<const N: usize>() {
 #[kani::proof]
 #[kani::unwind(6)]
 fn u08_width_laws_q() {
+    check_width_laws::<2>();
+}
+
+#[kani::proof]
+#[kani::unwind(6)]
+fn u08_width_laws_t3() {
     check_width_laws::<3>();
 }
 
 #[kani::proof]
 #[kani::unwind(7)]
-fn u08_width_laws_t() {
+fn u08_width_laws_t4() {
     check_width_laws::<4>();
 }
